@@ -6,7 +6,7 @@ CFG = dict(
                "spacing, re-arming before expiry, expiries in any order the clock allows): at most one callback per arming (no hypothesis); "
                "every callback is produced by an expiry at or after the deadline of the arming it belongs to (no hypothesis); with strictly "
                "increasing armed rounds every callback belongs to the LATEST arming made before it (re-arming supersedes) and a round is called "
-               "back at most once; deadline = slot start + role base (slot/3 or slot/3*2) + cumulative per-round allowance, strictly monotone "
+               "back at most once; every callback goes to the handler of the LAST OnTimeout registration (re-registration replaces); deadline = slot start + role base (slot/3 or slot/3*2) + cumulative per-round allowance, strictly monotone "
                "in the round, for the four slot-timed roles; Controller.OnTimeout model: a timeout for an unknown height, a lower round or a "
                "decided instance (also: undecodable data, stopped instance, duplicate delivery) changes nothing, broadcasts nothing, re-arms "
                "nothing; over ALL controller histories (start / decided for past, current, future heights / timeouts, any container capacity) a timeout "
@@ -28,7 +28,9 @@ CFG = dict(
     rule="per seed: n timer cases (1-5 armings, rounds strictly increasing with jumps, re-arm before expiry / after expiry / random gap, deadlines already "
          "passed at arming, parent-context cancel with later armings, 18% at the points the quantifier excludes: same round twice, round re-armed after being "
          "superseded, new height on the shared timer), each executed at least twice on the real RoundTimer and re-run in isolation if executions differ or "
-         "measured scheduling latency > 30 ms (scripts keep 60 ms between ops and expiry instants); 6n duration-arithmetic ops of the real RoundTimeout (production "
+         "measured scheduling latency > 30 ms (scripts keep 60 ms between ops and expiry instants); 6n duration-arithmetic ops of the real RoundTimeout, 3n deadline ops on the REAL beacon.Network (4 spec networks x local-testnet flag, "
+         "handed on through GetNetwork as the operator does; slot start checked against the configured object's own genesis), handler "
+         "re-registration / nil handler in ~45% of timer cases (production "
          "constants and random ones, rounds up to 10^6); n controller cases (container capacity 1/2/3/4/8/1024, 8-50 ops, timeouts aimed at every stored instance: start / decided / timeout current, lower, future, other height, decided, "
          "stopped, duplicate, undecodable, chains up to the cutoff round). distinct = (role class, excluded point, op styles, #callbacks) resp. "
          "(op kind, staleness class, error) keys",
